@@ -92,9 +92,10 @@ class DispatchingRequestHandler(BaseHTTPRequestHandler):
             http_status, http_reason, response_xml_string = result
         except Exception as ex:
             self.server.logger.error('exception (request from {}): {}', self.path, self.client_address, ex)
-            http_reason = str(ex)
-            response_xml_string = b''
-            self.send_response(500, http_reason)  # server error
+            # the text of the exception (it can be long, have many lines and quote the request) belongs into the body,
+            # not into the status line
+            response_xml_string = str(ex).encode('utf-8', errors='replace')
+            self.send_response(500, 'Internal Server Error')
             self.send_header("Content-type", "text/plain; charset=utf-8")
             self.send_header("Content-length", str(len(response_xml_string)))
             self.end_headers()
